@@ -71,6 +71,20 @@ def build_events(case):
                         events += [(prog2, vdesc), (prog2, redef)]
                     prog = prog2
                     continue
+        if r < 0.36 and rng.random() < 0.35:
+            # aimed pair: a function re-executed with a reference to a name that is bound only afterwards (an alias
+            # statement follows the definition), nobody asks for a version, then an unregistered wrapper of it
+            for _try in range(6):
+                res = progs.apply_edit(rng, prog, rng.choice(["add_call", "retarget_call"]))
+                if res is not None and res[1].get("alias_added") and res[0]["nodes"][res[1]["node"]]["kind"] == "memento":
+                    prog, desc = res
+                    desc["silent"] = True
+                    nd = prog["nodes"][desc["node"]]
+                    events += [(prog, desc), (prog, {"kind": "wrapper", "seed": rng.randrange(1 << 30), "of": [nd["mod"], nd["name"]]})]
+                    break
+            else:
+                continue
+            continue
         if r < 0.26:
             # a definition re-executed unchanged (a notebook cell run again, a module reloaded)
             i = rng.randrange(len(prog["nodes"]))
@@ -193,6 +207,8 @@ def inproc_child(arg):
                 extra["subset"] = query(prog, pkg, sub)
             elif names:
                 mod, name = r.choice(names)
+                if desc.get("of") and desc["of"] in names:
+                    mod, name = desc["of"]
                 fn = getattr(sys.modules[progs.modname(prog, mod)], name)
                 try:
                     if kind == "clone":
